@@ -62,6 +62,13 @@ func (g *GaussianSampler) ReadNew() (pol Poly) {
 
 // ReadAndAdd samples a truncated Gaussian polynomial at the given level for the receiver's default standard deviation and bound and adds it on "pol".
 func (g *GaussianSampler) ReadAndAdd(pol Poly) {
+	if g.montgomery {
+		// MForm must be applied to the sampled polynomial only, not to pol + sample.
+		e := g.baseRing.NewPoly()
+		g.Read(e)
+		g.baseRing.Add(pol, e, pol)
+		return
+	}
 	g.read(pol, func(a, b, c uint64) uint64 {
 		return CRed(a+b, c)
 	})
